@@ -265,9 +265,10 @@ type GreaseRecipient struct {
 	N       int // number of stanzas
 	BodyLen int
 	Tag     int
-	ArgLen  int // >0: an extra argument of this many characters
-	Append  int // >0: Wrap appends this many bytes to the file-key slice it received
-	NArgs   int // >0: this many further short arguments
+	ArgLen  int  // >0: an extra argument of this many characters
+	Append  int  // >0: Wrap appends this many bytes to the file-key slice it received
+	NArgs   int  // >0: this many further short arguments
+	Bare    bool // no arguments at all
 }
 
 // AppendSink keeps the appended slice alive.
@@ -286,6 +287,9 @@ func (g *GreaseRecipient) Stanzas() []*age.Stanza {
 		}
 		for j := 0; j < g.NArgs; j++ {
 			st.Args = append(st.Args, fmt.Sprintf("k%d", j))
+		}
+		if g.Bare {
+			st.Args = nil
 		}
 		out = append(out, st)
 	}
